@@ -464,7 +464,9 @@ def run(ctx):
         "to every residue and filled across the wrap, AutoGrow initial capacity 0..8; input classes: one-byte elements up to 170 (64-byte fast_fill paths of "
         "resize / fill_range_fast), u64 vectors beyond 8 and 16 elements (SIMD / prefetch thresholds), zero-sized elements (FastVec, ValVec32, "
         "CacheAlignedVec, both queues), strings of 2^20-1 .. 2^20+5 and 2^24-1 / 2^24+3 bytes (20- and 24-bit length fields; shown as digests), 254..257 "
-        "bytes (8-bit length of FixedLenStrVec), strings sharing 8/16/32-byte stems, batches of 33..700 strings (radix buckets from 32, blocked binary "
+        "bytes (8-bit length of FixedLenStrVec), strings sharing 8/16/32-byte stems, the overlap family on every string subject (prefixes / suffixes / "
+        "infixes of earlier strings at positions 0, 1, 3, 4, len-k; strings starting at a later occurrence of an earlier string's own 3/4/8-byte stem; "
+        "shared 3/4/8-byte stems; the same string again after unrelated ones; strings spanning two consecutive earlier strings), batches of 33..700 strings (radix buckets from 32, blocked binary "
         "search from 513, 256-bit rank/select blocks of ZoSortedStrVec).  "
         "exhaustive refers to the B2 history spaces." % (("4", "5", "7", "10", "4") if th else ("3", "4", "5", "8", "2")))
     for f in (fv, fq, fs):
